@@ -39,7 +39,13 @@ var gtypes = []struct {
 	name string
 	t    authgrants.GrantType
 	cmd  string
-}{{"shell", authgrants.Shell, ""}, {"cmd-a", authgrants.Command, "a"}, {"cmd-b", authgrants.Command, "b"}}
+}{{"shell", authgrants.Shell, ""}, {"cmd-a", authgrants.Command, "a"}, {"cmd-b", authgrants.Command, "b"},
+	// grants for other action kinds: they never authorise a shell or a command. The replay path
+	// and the thorough tier use all of them, the quick tier the first (see nGtypes).
+	{"local-pf", authgrants.LocalPF, ""}, {"remote-pf", authgrants.RemotePF, ""}, {"acme", authgrants.Acme, ""}}
+
+// nGtypes is how many entries of gtypes the alphabet uses.
+var nGtypes = 4
 var principals = [][2]int{{0, 1}, {0, 2}, {1, 1}} // (user index, key index)
 var users = []string{"u1", "u2"}
 var reqs = []struct {
@@ -405,9 +411,10 @@ func main() {
 	depth := 4
 	if r.Thorough() {
 		depth = 5
+		nGtypes = len(gtypes)
 	}
 	var alpha []ev
-	for a := range gtypes {
+	for a := range gtypes[:nGtypes] {
 		for b := range windows {
 			for c := range principals {
 				alpha = append(alpha, ev{K: "add", A: a, B: b, C: c})
